@@ -511,6 +511,9 @@ func c20Registration(r *fw.Rec, rr *prng.R) {
 		{"errptrnil", func(x float64) (float64, *c20ErrPtr) { return x + 1, nil }, true, "second result is a pointer type implementing error, nil returned", "value:2"},
 		{"errptr", func(x float64) (float64, *c20ErrPtr) { return x, &c20ErrPtr{"bang"} }, true, "second result is a pointer type implementing error, non-nil returned", "error:bang"},
 		{"typednil", (func(float64) float64)(nil), false, "typed nil func", ""},
+		{"optvar", func(a jtypes.OptionalInt, b ...int) int { return 0 }, false, "optional directly before a variadic tail", ""},
+		{"optvar2", func(s string, o jtypes.OptionalString, rest ...interface{}) int { return 0 }, false, "optional directly before a variadic tail", ""},
+		{"optvar3", func(o jtypes.OptionalValue, rest ...jtypes.Callable) int { return 0 }, false, "optional directly before a variadic tail", ""},
 		{"", good, false, "empty name", ""}, {"a b", good, false, "space in name", ""}, {"a-b", good, false, "dash in name", ""}, {"$x", good, false, "dollar in name", ""}, {"a.b", good, false, "dot in name", ""}, {"f(", good, false, "paren in name", ""},
 		{"nf", 42, false, "not a function", ""}, {"nf2", "str", false, "not a function", ""}, {"r0", func(x float64) {}, false, "no results", ""}, {"r3", func() (int, int, error) { return 0, 0, nil }, false, "three results", ""},
 		{"r2", func() (int, int) { return 0, 0 }, false, "second result not an error", ""}, {"optfirst", func(a jtypes.OptionalInt, b float64) int { return 0 }, false, "optional before mandatory", ""},
@@ -717,7 +720,7 @@ func init() {
 	fw.Register(&fw.Prop{
 		ID: "C20", Title: "Extensions: faithful argument passing, typed failures, registry visibility",
 		Rule: "cases: PRNG-generated (a) Go functions built with reflect.MakeFunc over parameter lists of length 0..4 drawn from float64, int, uint8, string, bool, []byte, interface{}, reflect.Value, []interface{}, map[string]interface{}, jtypes.Callable and the seven Optional* types, with variadic tails and one or two results (nil error / error / jtypes.ErrUndefined), registered on an Expr and called under a path with 0..5 arguments over 10 value kinds (number, fraction, Go int, string, boolean, array, object, function, missing, out-of-range for uint8), with every combination of UndefinedHandler (ArgUndefined(0)) and EvalContextHandler (ArgCountEquals(n)); the function records its arguments; " +
-			"(b) 24 registration cases: valid and invalid names and function shapes (incl. typed nil funcs and concrete error result types), on an Expr and at package level, each accepted one then called; (c) sequential histories of 6..16 steps mixing Compile, package-level and Expr-level RegisterVars/RegisterExts on three names and probes of every live Expr, judged against a sequential model (global map; each Expr = snapshot at Compile + its own registrations). " +
+			"(b) 27 registration cases: valid and invalid names and function shapes (incl. typed nil funcs and concrete error result types), on an Expr and at package level, each accepted one then called; (c) sequential histories of 6..16 steps mixing Compile, package-level and Expr-level RegisterVars/RegisterExts on three names and probes of every live Expr, judged against a sequential model (global map; each Expr = snapshot at Compile + its own registrations). " +
 			"Oracle: the statement's conversion table (parameter type x argument kind), the count/handler rules, and the sequential registry model. non-trivial = every case; distinct by (signature, handlers, arguments) / history",
 		Assumptions: []string{"argument positions in ArgTypeError are counted after the context item was prepended", "float-to-int conversion is judged only for integral in-range values (Go leaves the rest implementation-defined)", "package-level names are unique per history because the package registry cannot be reset; the concurrent variant is C06 configuration E"},
 		Plan: func(tier string, seed uint64) *fw.Plan {
